@@ -876,8 +876,13 @@ def subterms(t):
 
 
 # ------------------------------------------------------------------ program
+CURRENT = None    # the program being analysed (set by Program.__init__; read by base.match for on-demand expansion)
+
+
 class Program:
     def __init__(self, facts, meta=None):
+        global CURRENT
+        CURRENT = self
         self.meta = meta or {}
         self.units = facts
         self.fns = []
